@@ -233,6 +233,7 @@ type call struct {
 	on     int  // pipelined: the call whose answer it is made on
 	pred   int  // -1 or the previous call of the same caller
 	field  uint16
+	slow   bool // pipelined: if delivered by the drain loop, the target withholds its delivery acknowledgement (Recv blocks) until decision K
 	self   bool // direct call whose result capabilities are the server itself (directed corpus cases only)
 
 	ctx    context.Context
@@ -249,6 +250,8 @@ type call struct {
 	sendDone                       bool
 	completions                    []string
 	delivered, tret                bool
+	blocked                        bool
+	ackCh                          chan struct{}
 	trecv                          capnp.Recv
 	enqSeq                         int
 }
@@ -343,6 +346,7 @@ func (h *hist) generate(i int) {
 		} else {
 			c.on = r.Intn(id)
 			c.field = fields[r.Intn(len(fields))]
+			c.slow = r.Intn(3) == 0
 		}
 		k := r.Intn(ncallers)
 		c.pred = last[k]
@@ -366,6 +370,8 @@ func (h *hist) header() string {
 			fmt.Fprintf(&sb, " d:%s:self", pr)
 		case c.direct:
 			fmt.Fprintf(&sb, " d:%s", pr)
+		case c.slow:
+			fmt.Fprintf(&sb, " p%d:%s:%d:slow", c.on, pr, c.field)
 		default:
 			fmt.Fprintf(&sb, " p%d:%s:%d", c.on, pr, c.field)
 		}
@@ -397,6 +403,7 @@ func (h *hist) parse(line string) {
 				x, _ := strconv.Atoi(s[2])
 				c.field = uint16(x)
 			}
+			c.slow = len(s) > 3 && s[3] == "slow"
 		}
 		h.calls = append(h.calls, c)
 	}
@@ -537,7 +544,7 @@ func (t *target) Recv(ctx context.Context, r capnp.Recv) capnp.PipelineCaller {
 	ev := fmt.Sprintf("v%d:r%d", id, t.of)
 	h.log = append(h.log, ev)
 	h.deliv = append(h.deliv, ev)
-	h.mu.Unlock()
+	h.holdAck(p)
 	return &fwd{h: h, of: id}
 }
 
@@ -589,7 +596,7 @@ func (f *fwd) PipelineRecv(ctx context.Context, transform []capnp.PipelineOp, r 
 	ev := fmt.Sprintf("v%d:f%d", id, f.of)
 	h.log = append(h.log, ev)
 	h.deliv = append(h.deliv, ev)
-	h.mu.Unlock()
+	h.holdAck(p)
 	return &fwd{h: h, of: id}
 }
 
@@ -598,6 +605,20 @@ func (f *fwd) PipelineSend(ctx context.Context, transform []capnp.PipelineOp, s 
 	f.h.flag("unexpected-send-on-target")
 	f.h.mu.Unlock()
 	return capnp.ErrorAnswer(s.Method, capnp.Unimplemented("harness target: PipelineSend")), func() {}
+}
+
+// holdAck is called with h.mu held at the end of a delivery: a slow target that received a queued
+// call (i.e. from the drain loop) does not return from Recv until decision K.
+func (h *hist) holdAck(p *call) {
+	if p.slow && p.queued {
+		p.blocked = true
+		p.ackCh = make(chan struct{})
+		ch := p.ackCh
+		h.mu.Unlock()
+		<-ch
+		return
+	}
+	h.mu.Unlock()
 }
 
 // queue order monitor: a queued call must not be delivered after a call that entered the same
@@ -744,9 +765,20 @@ func (h *hist) available(step int) ([]decision, []int) {
 		}
 	}
 	late := step > 6*len(h.calls)+6
+	// a drain loop is stuck in a slow target: calls arriving now arrive "during the drain"
+	stuckRoot := map[int]bool{}
+	for _, c := range h.calls {
+		if !c.direct && c.blocked {
+			stuckRoot[h.rootOf(c)] = true
+		}
+	}
 	for _, c := range h.calls {
 		if h.canIssue(c) {
-			add(decision{kind: 'I', c: c.id}, 6)
+			w := 6
+			if !c.direct && stuckRoot[h.rootOf(c)] {
+				w = 30
+			}
+			add(decision{kind: 'I', c: c.id}, w)
 		}
 		if c.began && !c.implRet {
 			if !c.acked {
@@ -759,7 +791,14 @@ func (h *hist) available(step int) ([]decision, []int) {
 			add(decision{kind: 'R', c: c.id, err: false}, w)
 			add(decision{kind: 'R', c: c.id, err: true}, 1+w/4)
 		}
-		if !c.direct && c.delivered && !c.tret {
+		if !c.direct && c.blocked {
+			w := 3
+			if late {
+				w = 8
+			}
+			add(decision{kind: 'K', c: c.id}, w)
+		}
+		if !c.direct && c.delivered && !c.tret && !c.blocked {
 			w := 2
 			if late {
 				w = 6
@@ -803,7 +842,9 @@ func (h *hist) applicable(d decision) bool {
 	case 'R':
 		return c.began && !c.implRet
 	case 'T':
-		return !c.direct && c.delivered && !c.tret
+		return !c.direct && c.delivered && !c.tret && !c.blocked
+	case 'K':
+		return !c.direct && c.blocked
 	case 'X':
 		return !c.cancelled
 	}
@@ -841,6 +882,10 @@ func (h *hist) apply(d decision) {
 			h.fillCaps(res, c.id)
 			r.Return()
 		}()
+	case 'K':
+		c := h.calls[d.c]
+		c.blocked = false
+		close(c.ackCh)
 	case 'X':
 		c := h.calls[d.c]
 		c.cancelled = true
